@@ -110,6 +110,9 @@ func fieldPathsRead(fn *ssa.Function) []string {
 }
 
 func checkC18(p *Program, r *Report) {
+	// round 6 (systematic): no unguarded mutable package-level state behind this property's functions (§2.9)
+	sharedStateRule(p, r, NewEffects(p), "C18.shared", []string{"txsort/txsort.go"})
+	r.Floor("C18.shared", 0)
 	r.Explain = "C18.copy: Sort sorts the slices of a deep copy of its argument (origin fresh, not the parameter), returns that copy, and has no write effect on memory " +
 		"reachable from the parameter. C18.pure: the comparators and Len write nothing but their own locals; Swap exchanges exactly s[i] and s[j]. C18.same: " +
 		"InPlaceSort, Sort and IsSorted view inputs and outputs through the same two sortable types, so they share one order; the input comparator reads only " +
